@@ -132,6 +132,8 @@ struct Tr<'a> {
     ptr_live: bool,
     // constructors (construct.rs): no receiver; the result is a model matrix built from an element list
     ctor_mode: bool,
+    // the name of the function being translated
+    fname: String,
     // the function returns a Result (an early `return Err(..)` may leave a loop)
     ret_result: bool,
     // the drivers of arithmetic.rs: several element types; the element size that matters is the output's (esU)
@@ -206,11 +208,21 @@ fn arith_sig(name: &str) -> Option<(&'static str, &'static str, &'static str)> {
             "(esL esR esU : Z) (fuel fuel2 : nat) (dflt : U) (self : matrix L) (rhs : matrix R) (op : list L -> list R -> res U)",
             "(result (matrix U))",
         ),
+        // mul.rs: the product with the element operators; the free function dot_product is owner "" 
+        "multiply" => (
+            "{L R U : Type}",
+            "(esL esR esU : Z) (fuel fuel2 : nat) (dflt : U) (mul : L -> R -> U) (add : U -> U -> U) (self : matrix L) (rhs : matrix R)",
+            "(result (matrix U))",
+        ),
+        // iter.rs: the element iterators as the list of the items they hand out, in order
+        "iter_elements" | "iter_elements_mut" | "into_iter_elements" => ("{L : Type}", "(self : matrix L)", "(list L)"),
+        "iter_elements_with_index" | "iter_elements_mut_with_index" | "into_iter_elements_with_index" => ("{L : Type}", "(self : matrix L)", "(list (GIndex * L))"),
+        "dot_product" => ("{L R U : Type}", "(mul : L -> R -> U) (add : U -> U -> U) (lhs : list L) (rhs : list R)", "(option U)"),
         _ => return None,
     })
 }
 fn arith_fn(owner: &str, name: &str) -> bool {
-    owner == "Matrix" && arith_sig(name).is_some()
+    (owner == "Matrix" && arith_sig(name).is_some() && name != "dot_product") || (owner == "Free" && name == "dot_product")
 }
 
 fn fuel_fn(name: &str) -> bool {
@@ -305,6 +317,7 @@ impl<'a> Tr<'a> {
                     Ty::Named(s) if s == "DataPtr" && name == "add" => Ty::Named("DataPtr".into()),
                     Ty::Named(s) if s == "NonNull" && name == "addr" => Ty::Usize,
                     Ty::Named(s) if s == "NonNull" && name == "as_mut" => Ty::Named("RefMut".into()),
+                    Ty::Named(s) if s == "Elem" && name == "clone" => Ty::Named("Elem".into()),
                     Ty::Named(s) if s == "Vec" && name == "len" => Ty::Usize,
                     Ty::Named(s) if s == "Vec" && name == "as_mut_ptr" => Ty::Named("RawPtr".into()),
                     Ty::Named(s) if s == "Vec" && name == "get_unchecked" => Ty::Named("Elem".into()),
@@ -334,6 +347,9 @@ impl<'a> Tr<'a> {
                 }
                 if p == "NonZero::new_unchecked" || p == "cmp::min" {
                     return Ty::Usize;
+                }
+                if p == "dot_product" {
+                    return Ty::Opt(Box::new(Ty::Named("Elem".into())));
                 }
                 if p == "Vec::new" || p == "Vec::with_capacity" {
                     return Ty::Named("VecT".into());
@@ -1169,6 +1185,15 @@ impl<'a> Tr<'a> {
                                     k(me, if matches!(b.op, BinOp::Ne(_)) { format!("(negb {})", eq) } else { eq }, env)
                                 }
                                 _ => {
+                                    if lt == Ty::Named("Elem".into()) {
+                                        // the element type's own operators: caller code, a parameter
+                                        let f = match b.op {
+                                            BinOp::Mul(_) => "mul",
+                                            BinOp::Add(_) => "add",
+                                            _ => return "(*UNSUPPORTED element operator*)".into(),
+                                        };
+                                        return k(me, format!("({} {} {})", f, l, r), env);
+                                    }
                                     if lt != Ty::Usize {
                                         return format!("(*UNSUPPORTED arithmetic at type {:?}*)", lt);
                                     }
@@ -1253,6 +1278,13 @@ impl<'a> Tr<'a> {
                 }
                 if p == "Vec::new" && c.args.is_empty() {
                     return k(self, "vec_new".into(), env);
+                }
+                if p == "dot_product" && self.arith {
+                    let args: Vec<&Expr> = c.args.iter().collect();
+                    return self.exprs(&args, env, &mut |me, vs, env| {
+                        let t = me.fresh("o");
+                        format!("let* {} := G_Free_dot_product md mul add {} in\n  {}", t, vs.join(" "), k(me, t.clone(), env))
+                    });
                 }
                 if p == "cmp::min" && c.args.len() == 2 {
                     let args: Vec<&Expr> = c.args.iter().collect();
@@ -1368,7 +1400,54 @@ impl<'a> Tr<'a> {
                 let _ = m;
                 k(self, "(rows_first_len value)".into(), env)
             }
-            Expr::MethodCall(m) if self.arith && (m.method == "collect" || m.method == "for_each") => {
+            Expr::MethodCall(m) if self.arith && m.method == "clone" && m.args.is_empty() && self.ty_of(&m.receiver, env) == Ty::Named("Elem".into()) => {
+                // the clone of an element is the element
+                self.expr(&m.receiver, env, k)
+            }
+            Expr::MethodCall(m) if self.arith && m.method == "unwrap_unchecked" && m.args.is_empty() => {
+                self.expr(&m.receiver, env, &mut |me, v, env| {
+                    let t = me.fresh("w");
+                    format!("let* {} := unwrap_unchecked {} in\n  {}", t, v, k(me, t.clone(), env))
+                })
+            }
+            Expr::MethodCall(m) if self.arith && m.method == "reduce" && m.args.len() == 1 => {
+                // X.iter().zip(Y).map(|(a, b)| e).reduce(|acc, p| f): left fold of the mapped pairs, None when there are none
+                let Expr::MethodCall(mp) = &*m.receiver else { return "(*UNSUPPORTED reduce receiver*)".into() };
+                let Expr::MethodCall(zp) = &*mp.receiver else { return "(*UNSUPPORTED reduce receiver*)".into() };
+                if mp.method != "map" || zp.method != "zip" || !tstr(&zp.receiver).ends_with(".iter()") {
+                    return "(*UNSUPPORTED reduce chain*)".into();
+                }
+                let xs = tstr(&zp.receiver).trim_end_matches(".iter()").to_string();
+                let ys = tstr(&zp.args[0]);
+                let (Expr::Closure(mc), Expr::Closure(rc)) = (&mp.args[0], &m.args[0]) else { return "(*UNSUPPORTED closures*)".into() };
+                let mp_names: Vec<String> = match mc.inputs.first() {
+                    Some(Pat::Tuple(t)) if t.elems.len() == 2 => t.elems.iter().map(tstr).collect(),
+                    _ => return "(*UNSUPPORTED map closure*)".into(),
+                };
+                let rd_names: Vec<String> = rc.inputs.iter().map(tstr).collect();
+                if rd_names.len() != 2 {
+                    return "(*UNSUPPORTED reduce closure*)".into();
+                }
+                let mut e2 = env.clone();
+                for n in mp_names.iter().chain(rd_names.iter()) {
+                    e2.insert(n.clone(), Ty::Named("Elem".into()));
+                }
+                let mbody = self.expr(&mc.body, &mut e2.clone(), &mut |_, v, _| v);
+                let rbody = self.expr(&rc.body, &mut e2.clone(), &mut |_, v, _| v);
+                k(
+                    self,
+                    format!(
+                        "(reduce_opt (fun {} {} => {}) (map (fun it => let '({}, {}) := it in {}) (combine {} {})))",
+                        cq(&rd_names[0]), cq(&rd_names[1]), rbody, cq(&mp_names[0]), cq(&mp_names[1]), mbody, cq(&xs), cq(&ys)
+                    ),
+                    env,
+                )
+            }
+            Expr::MethodCall(m) if self.arith && m.args.is_empty() && matches!(m.method.to_string().as_str(), "iter" | "iter_mut" | "into_iter") && tstr(&m.receiver) == "self.data" => {
+                // the iterator over the element vector itself: its items in order
+                k(self, "(m_data self)".into(), env)
+            }
+            Expr::MethodCall(m) if self.arith && (m.method == "collect" || m.method == "for_each" || (m.method == "map" && self.owner == "Matrix" && self.fname.contains("iter_elements"))) => {
                 // X.data.{iter|into_iter|iter_mut}() [.zip(&Y.data) | .enumerate()] {.map(cl).collect() | .for_each(cl)}
                 let mut chain: Vec<&ExprMethodCall> = vec![m];
                 let mut cur: &Expr = &m.receiver;
@@ -1387,11 +1466,13 @@ impl<'a> Tr<'a> {
                         let Some(o) = other.strip_prefix('&').and_then(|x| x.strip_suffix(".data")) else { return format!("(*UNSUPPORTED zip argument {}*)", other) };
                         (format!("(combine (m_data {}) (m_data {}))", who, o), 2, Some(format!("(m_data {})", who)))
                     }
-                    ["iter" | "into_iter", "enumerate", "map", "collect"] | ["iter_mut", "enumerate", "for_each"] => (format!("(zenumerate (m_data {}))", who), 2, None),
+                    ["iter" | "into_iter", "enumerate", "map", "collect"] | ["iter_mut", "enumerate", "for_each"] | ["iter" | "into_iter" | "iter_mut", "enumerate", "map"] => {
+                        (format!("(zenumerate (m_data {}))", who), 2, None)
+                    }
                     ["iter" | "into_iter", "map", "collect"] | ["iter_mut", "for_each"] => (format!("(m_data {})", who), 1, None),
                     other => return format!("(*UNSUPPORTED iterator chain {}*)", other.join(".")),
                 };
-                let clos = if is_assign { &m.args[0] } else { &chain[chain.len() - 2].args[0] };
+                let clos = if is_assign || m.method == "map" { &m.args[0] } else { &chain[chain.len() - 2].args[0] };
                 if let Expr::Path(fp) = clos {
                     // a function passed by name: applied to every item
                     if nparams != 1 {
@@ -1680,6 +1761,16 @@ const TARGETS: &[(&str, &str)] = &[
     // arithmetic.rs: the slice of one major-axis vector and the closure-taking product
     ("Matrix", "get_nth_major_axis_vector"),
     ("Matrix", "multiplication_like_operation"),
+    // iter.rs: the element iterators
+    ("Matrix", "iter_elements"),
+    ("Matrix", "iter_elements_mut"),
+    ("Matrix", "into_iter_elements"),
+    ("Matrix", "iter_elements_with_index"),
+    ("Matrix", "iter_elements_mut_with_index"),
+    ("Matrix", "into_iter_elements_with_index"),
+    // mul.rs: the dot product of two slices and the product built on it
+    ("Free", "dot_product"),
+    ("Matrix", "multiply"),
     // lib.rs: apply / map / map_ref / clear / contains
     ("Matrix", "apply"),
     ("Matrix", "map"),
@@ -1734,6 +1825,9 @@ fn main() {
         let file = parse_file(&src).unwrap_or_else(|e| panic!("{p}: {e}"));
         for it in file.items {
             match it {
+                Item::Fn(f) if f.sig.ident == "dot_product" => {
+                    cx.fns.entry(("Free".to_string(), "dot_product".to_string())).or_insert(FnInfo { sig: f.sig, block: *f.block });
+                }
                 Item::Enum(en) => {
                     // #[derive(Default)] with a #[default] variant
                     for v in &en.variants {
@@ -1823,7 +1917,7 @@ fn main() {
         for a in &sig.inputs {
             match a {
                 FnArg::Receiver(r) => {
-                    self_mut = r.mutability.is_some() && r.reference.is_some() && !(*o == "Matrix" && (view_fn(n) || ptr_fn(o, n)));
+                    self_mut = r.mutability.is_some() && r.reference.is_some() && !(*o == "Matrix" && (view_fn(n) || ptr_fn(o, n) || n.contains("iter_elements")));
                     params.push(format!("(self : G{})", o));
                 }
                 FnArg::Typed(t) => {
@@ -1833,7 +1927,9 @@ fn main() {
                         ty = Ty::Named("Rows".into());
                     }
                     if arith_fn(o, n_fn) {
-                        if n == "op" && n_fn == "multiplication_like_operation" {
+                        if n_fn == "dot_product" {
+                            ty = Ty::Named("VecT".into());
+                        } else if n == "op" && n_fn == "multiplication_like_operation" {
                             ty = Ty::Named("OpFnM".into());
                         } else if n == "op" {
                             ty = Ty::Named("OpFn".into());
@@ -1865,6 +1961,7 @@ fn main() {
             has_data: false,
             ptr_live: false,
             ctor_mode: cm,
+            fname: n.to_string(),
             ret_result: matches!(ret, Ty::Res(_)),
             arith: am,
             ret_self,
